@@ -62,6 +62,10 @@ ERRNOS = {
 
 # abort() is permitted only in these functions (DESIGN §3 C16 / property text: growing the watcher table,
 # registering a descriptor with the poller, fs-poll re-arm, inotify re-creation after fork, thread-pool start-up)
+# calls whose every occurrence sits in a plain retry loop (one extra call per interruption) or, for close, in none
+STORM_EXACT = {"close@s", "close@f", "close@p", "close@e", "close@i", "close@E", "accept4@s", "connect@s", "sendmsg@s",
+               "recvmsg@s", "writev@s", "ioctl@s", "fcntl@s", "waitpid@-", "read@s", "write@s"}
+
 ALLOWED_ABORT = {"maybe_resize", "uv__io_poll", "uv__epoll_ctl_flush", "uv__epoll_ctl_prep", "timer_cb", "poll_cb",
                  "uv__inotify_fork", "init_threads", "init_once", "post", "uv__threadpool_cleanup"}
 
@@ -69,6 +73,143 @@ ALLOWED_ABORT = {"maybe_resize", "uv__io_poll", "uv__epoll_ctl_flush", "uv__epol
 def errnos_for(callkind):
     call = callkind.split("@")[0]
     return ERRNOS.get(callkind, ERRNOS.get(call, []))
+
+
+def strip_c_comments(t):
+    return re.sub(r"/\*.*?\*/", lambda m: re.sub(r"[^\n]", " ", m.group(0)), t, flags=re.S)
+
+CALL = re.compile(r"\b([A-Za-z_]\w*)\s*\(")
+NOTCALL = {"if", "while", "for", "switch", "return", "sizeof", "assert", "defined", "do", "UV__ERR", "memset", "memcpy", "abort"}
+
+def census():
+    out = []
+    files = [REPO / "src" / f for f in SRC_COMMON] + [REPO / "src/unix" / f for f in SRC_UNIX]
+    for path in files:
+        if not path.exists():
+            continue
+        txt = strip_c_comments(path.read_text(errors="replace"))
+        lines = txt.splitlines()
+        # function starts (definitions begin in column 0)
+        func_at = []
+        cur = None
+        for i, l in enumerate(lines):
+            m = re.match(r"^[A-Za-z_][\w\s\*]*?\b(\w+)\s*\([^;]*$", l)
+            if m and m.group(1) not in NOTCALL:
+                cur = m.group(1)
+            func_at.append(cur)
+        for i, l in enumerate(lines):
+            if "EINTR" not in l:
+                continue
+            shape = None
+            if re.search(r"\bwhile\s*\(.*EINTR", l) or (re.search(r"EINTR", l) and i > 0 and re.search(r"\bwhile\s*\($", lines[i-1].strip())):
+                shape = "loop"
+            elif re.search(r"EINTR\)?\s*\)?\s*$", l) and i + 1 < len(lines) and lines[i + 1].strip().startswith("continue"):
+                shape = "continue"
+            elif re.search(r"EINTR.*continue", l):
+                shape = "continue"
+            if shape is None:
+                shape = "cond"        # EINTR tolerated without a retry (close, epoll_pwait, partial sendfile)
+            # the call being retried: nearest preceding call expression within 12 lines
+            call = "?"
+            for j in range(i, max(-1, i - 14), -1):
+                seg = lines[j] if j < i else l.split("while")[0]
+                cands = [c for c in CALL.findall(seg) if c not in NOTCALL]
+                if cands:
+                    call = cands[0]; break
+            out.append((str(path.relative_to(REPO / "src")), func_at[i] or "?", call, shape))
+    return out
+
+
+
+def check_census(ctx):
+    """Tie A: every EINTR retry loop of the sources, as (file, function, call, shape).  Generated into
+    lean/UvModel/Generated/RetryCensus.lean (written only when it changes) and compared with the committed
+    expectation corpus/C16/retry_census.txt: a site that lost its retry loop is a broken obligation."""
+    cur = census()
+    lines = [" ".join(e) for e in cur]
+    gen = LEAN / "UvModel/Generated/RetryCensus.lean"
+    body = ("/-! generated by checks/c16.py from the working tree: every EINTR retry / tolerance site (file, function, call, shape) -/\n"
+            "namespace UvModel.Generated\n\ndef retryCensus : List (String × String × String × String) := [\n" +
+            ",\n".join(f'  ("{a}", "{b}", "{c}", "{d}")' for a, b, c, d in cur) + "\n]\n\nend UvModel.Generated\n")
+    if not gen.exists() or gen.read_text() != body:
+        if REPO == Path("/repo"):
+            gen.write_text(body)
+    exp_file = VERIF / "corpus" / "C16" / "retry_census.txt"
+    expected = [l.strip() for l in exp_file.read_text().splitlines() if l.strip() and not l.startswith("#")] if exp_file.exists() else []
+    from collections import Counter
+    lost = Counter(expected) - Counter(lines)
+    new = Counter(lines) - Counter(expected)
+    ctx.notes["retry_census"] = {"sites": len(lines), "loops": sum(1 for e in cur if e[3] == "loop"),
+                                 "continue": sum(1 for e in cur if e[3] == "continue"),
+                                 "tolerated": sum(1 for e in cur if e[3] == "cond"),
+                                 "lost": sorted(lost.elements()), "new_unreviewed": sorted(new.elements())}
+    for site in sorted(lost.elements()):
+        ctx.broken.append(("tie-A", f"retry census: site lost: {site}",
+                           "an EINTR retry/tolerance site of corpus/C16/retry_census.txt is no longer in the sources"))
+    return sorted(lost.elements())
+
+
+ENUM = {"EMFILE": 24, "ENFILE": 23, "ENOMEM": 12, "ENOSPC": 28}
+ATOMS = ([("write2", [n], f"write2:{n}") for n in (1, 4, 5, 8)] +
+         [("udp_send", [n, a], f"udp_send:{n}:{a}") for n in (2, 6) for a in (0, 1)] +
+         [("fs", [1, k], f"fs:1:{i}") for i, k in enumerate(("none", "path", "bufs"))] + [("fs", [0, "none"], "fs:0:0")] +
+         [("queue_work", [], "queue_work"), ("getaddrinfo", [], "getaddrinfo"), ("pipe_bind", [], "pipe_bind"),
+          ("fs_poll_start", [], "fs_poll_start")] +
+         [("spawn", [n, h], f"spawn:{n}:{h}") for n in (0, 1, 2, 3) for h in (0, 1)] +
+         [("fs_event_start", [w], f"fs_event_start:{w}") for w in (0, 1)] +
+         [("environ", [n], f"environ:{n}") for n in (1, 3, 7)])
+LABEL_ERRNOS = {"alloc": ["ENOMEM"], "sys:socket": ["EMFILE", "ENOMEM"], "sys:bind": ["ENOMEM"],
+                "sys:socketpair": ["EMFILE", "ENFILE"], "sys:fork": ["ENOMEM"], "sys:inotify_add_watch": ["ENOMEM", "ENOSPC"]}
+
+
+def atom_correspondence(ctx, exe, sym, stats):
+    """per-operation fault atomicity: the Lean model (uvdriver c16ops) and the real call, fault point by fault point"""
+    cases = []      # (driver line, harness spec, description)
+    req = "".join(f"points {op} {' '.join(map(str, ps))}\n" for op, ps, _ in ATOMS)
+    pts = ctx.driver(["c16ops"], req).splitlines()
+    for (op, ps, hs), pl in zip(ATOMS, pts):
+        labels = pl.split()[1:] if pl.startswith("points") else None
+        if labels is None:
+            ctx.broken_correspondence("c16ops points", f"{op}: {pl}"); continue
+        d = f"run {op} {' '.join(map(str, ps))}".rstrip()
+        cases.append((d + " fault none", f"atom:{hs}", f"{op}{ps} no fault"))
+        seen = {}
+        for k, lab in enumerate(labels):
+            seen[lab] = seen.get(lab, 0) + 1
+            for e in LABEL_ERRNOS.get(lab, []):
+                if lab == "alloc":
+                    specs = [f"alloc:{seen[lab]}"]
+                elif lab == "sys:fork":
+                    specs = [f"sys:pipe2:1:{e}", f"sys:fork:1:{e}"]
+                else:
+                    specs = [f"sys:{lab[4:]}:{seen[lab]}:{e}"]
+                for sp in specs:
+                    cases.append((f"{d} fault {k} {ENUM[e]}", f"atom:{hs} {sp}", f"{op}{ps} {lab}#{seen[lab]} {e}"))
+    model = ctx.driver(["c16ops"], "".join(c[0] + "\n" for c in cases)).splitlines()
+    runs = run_batch(ctx, exe, [c[1] for c in cases])
+    agree = 0
+    for (dline, spec, desc), m, r in zip(cases, model, runs):
+        ctx.count(); stats["runs"] += 1
+        v = judge(ctx, r, None, sym, stats)
+        obs = next((l[2:] for l in r.lines if l.startswith("O ")), None)
+        rp = {"scenario": spec.split()[0], "faults": spec.split()[1:]}
+        if obs is not None and "rc=-" in obs and " watches=1" in obs and "fs_event_start" in spec:
+            v.append(("fs-event-start-enomem-leaks-watch", "uv_fs_event_start returned UV_ENOMEM but the kernel watch added by "
+                      "inotify_add_watch is still there (no inotify_rm_watch on the error path, linux.c:2684-2686)"))
+        for sig, what in v:
+            ctx.violation(sig, f"{desc}: {what}", rp)
+        if obs is None:
+            if not v:
+                ctx.broken_correspondence("c16ops " + desc, "harness printed no observation: " + " | ".join(r.lines[-3:]))
+            continue
+        if obs == m:
+            agree += 1; ctx.validated(); ctx.nontrivial(("atom", desc))
+        elif not v:
+            ctx.broken_correspondence("c16ops " + desc, f"model `{m}` vs implementation `{obs}`")
+            # search: the ordinary monitors already ran on this very run (v is empty), and the enumeration below
+            # exercises the same call inside the scenarios
+    ctx.notes["per_op_correspondence"] = {"cases": len(cases), "agree": agree}
+    ctx.sample({"atom": cases[1][2], "model": model[1] if len(model) > 1 else None})
 
 
 class Run:
@@ -234,6 +375,15 @@ def judge(ctx, run, base, sym, stats):
         elif kind in ("alloc-leak", "lsan-leak", "active-reqs", "loop-alive", "loop-close", "stall", "invalid-free"):
             key = kind + ":" + first_failure(run)
         out.append((key, v[:400]))
+    # an EINTR storm on one call: each interruption costs exactly one more call (retry_eintr_transparent: n + 1 attempts);
+    # close is never retried (the descriptor is gone after the first attempt)
+    if base is not None and len(faults) == 1 and faults[0].endswith(":EINTR") and not out and run.abort is None and run.counts:
+        ck = faults[0].split(":")[1]
+        fired = sum(run.fired.values())
+        want = base.counts.get(ck, 0) + (0 if ck.startswith("close") else fired)
+        if ck in STORM_EXACT and fired > 0 and run.counts.get(ck, 0) != want and scen in ("tcp", "pipe", "ipc", "udp"):
+            out.append((f"retry-count:{ck}", f"{fired} EINTR on {ck}: {run.counts.get(ck, 0)} calls made, expected {want} "
+                        f"(fault-free {base.counts.get(ck, 0)})"))
     # transparent faults (EINTR, would-block on data transfer calls): same observable outcome
     fin = run.final
     if fin and run.abort is None and not out:
@@ -282,6 +432,11 @@ def run(ctx):
                         "UV_THREADPOOL_SIZE=1 so occurrence indices are deterministic",
                         "faults inside libc-internal calls (getaddrinfo, scandir, fopen, getpwuid_r) are out of reach",
                         "the forked child before exec runs without fault injection"]
+    lost = check_census(ctx)          # regenerates Generated/RetryCensus.lean first: Props.C16 proves a theorem about it
+    lean_ok = ctx.require_lean(["UvModel.Props.C16"])
+    if lost or not lean_ok:
+        ctx.notes["search"] = ("a proof / census obligation no longer checks: the complete single-fault enumeration, EINTR storms on "
+                               "every interruptible call and the pair sample below are the search for a failing input")
     exe = ctx.harness("c16_sim", ["harness/c16_sim.c"], link_lib=True, extra=["-rdynamic"])
     if exe is None:
         return
@@ -298,6 +453,8 @@ def run(ctx):
         for sig, what in judge(ctx, r, b, sym, stats):
             ctx.violation(sig, what, rp)
         return
+
+    atom_correspondence(ctx, exe, sym, stats)
 
     # ---- fault-free baselines: determinism, counts
     bases = {}
